@@ -130,7 +130,11 @@ EQUIV = (
     "reloaded instance may hold different amounts of final history, so blocks both hold must have identical lines, "
     "right after the load the reloaded one must hold every block of the live one, best tips equal, a tree with the same "
     "root in both is compared completely; block-of-proof back pointers are not read (known finding "
-    "dangling-endorsement-backpointers), the finalized mark is memory-only.")
+    "dangling-endorsement-backpointers), the finalized mark is memory-only. Comparison of two RUNNING instances (after "
+    "the follow-up operations; never right after the load): the validation level CONNECTED..CAN_BE_APPLIED of a valid "
+    "VBK/BTC block off the best chain is not compared - BaseBlockTree::doUpdateTips() iterates the unordered_set tips_ "
+    "(pointer order, different in any two instances) and applies a stale branch once iff it is visited before the "
+    "eventual winner; best chains, flags, payloads and all answers are compared.")
 
 
 # ---------------------------------------------------------------------------
@@ -186,7 +190,9 @@ def judge(sc, res, stats=None):
                     if inc:
                         fails.append((tag[0], "reloaded-instance-inconsistent", {"tag": [str(x) for x in tag[2:-1]], "what": inc[:4]}))
             else:
-                d1, d2 = S.diff_dumps(res[a], res[i])
+                # exact right after the load; after both instances have executed further operations the
+                # validation-level memo of stale SP branches is not compared (see _store.canon_dump)
+                d1, d2 = S.diff_dumps(res[a], res[i], relax_sp_level=(kind == "finalR"))
             if d1 or d2:
                 fails.append((tag[0], "state-differs-after-reload" if kind == "dumpR" else "state-differs-after-follow-up",
                               {"tag": [str(x) for x in tag[2:-1]], "live_only": d1[:6], "reloaded_only": d2[:6]}))
